@@ -416,6 +416,24 @@ func TestVerifC19Numa(t *testing.T) {
 				h.Obs("panic")
 			}
 		}
+		// deliverX: an event that carries the UNBOUND version of the stored pod (PreBind wrote the annotations on
+		// the still unbound pod, Bind sets spec.nodeName later): k 0 = add(unbound), 1 = update(unbound -> bound,
+		// SAME annotations).  What a scheduler that did not run Reserve itself sees first.
+		deliverX := func(eh *podEventHandler, cacheID, k, uid int) {
+			o := objs[uid]
+			unbound := o.pod.DeepCopy()
+			unbound.Spec.NodeName = ""
+			h.Op("numa evx %d %d %d", cacheID, k, uid)
+			if h.Guard(func() {
+				if k == 0 {
+					eh.OnAdd(unbound, true)
+				} else {
+					eh.OnUpdate(unbound, o.pod.DeepCopy())
+				}
+			}) {
+				h.Obs("panic")
+			}
+		}
 		// degenerate delete events: a tombstone whose Obj is not what the handler expects (another type, nil, a
 		// typed nil pointer), or a bare object of a foreign type.  Delivered to BOTH registered entry points (the
 		// pod handler and the reservation adapter).  They must be ignored: no op line, the ledger is unchanged.
@@ -771,24 +789,83 @@ func TestVerifC19Numa(t *testing.T) {
 		us := liveUIDs()
 		var first []string
 		for round := 0; round < 2; round++ {
-			fresh := &resourceManager{numaAllocateStrategy: liveRM.numaAllocateStrategy, topologyOptionsManager: tom,
+			// the fresh scheduler has its own topology options (filled by the NodeResourceTopology informer)
+			freshTom := NewTopologyOptionsManager()
+			setFreshTopo := func() {
+				freshTom.UpdateTopologyOptions(c19NodeName, func(o *TopologyOptions) {
+					*o = TopologyOptions{CPUTopology: topo, MaxRefCount: maxRef}
+				})
+			}
+			fresh := &resourceManager{numaAllocateStrategy: liveRM.numaAllocateStrategy, topologyOptionsManager: freshTom,
 				nodeAllocations: map[string]*NodeAllocation{}}
 			fh := &podEventHandler{resourceManager: fresh}
 			h.Op("numa fresh")
-			type ev struct{ kind, uid int }
+			// ---- delivery shape per surviving object (what a restarting / second scheduler can see):
+			//   0 add-bound: add(bound, annotated)
+			//   1 add-unbound-then-update-bound: add(unbound, annotated) ... update(old = unbound, new = bound, same annotations)
+			//   2 add-early-then-object-then-resync: add(bound) while the node's topology is not known yet, the
+			//     topology arrives, a no-change resync update(old = new) follows
+			shape := map[int]int{}
+			var earlyUs []int
+			for _, u := range us {
+				o := objs[u]
+				if o.pod.Spec.NodeName == "" || o.term {
+					continue // shapes apply to bound, running objects
+				}
+				switch r.Intn(5) {
+				case 0:
+					if o.resv == nil {
+						shape[u] = 1
+					}
+				case 1:
+					shape[u] = 2
+					earlyUs = append(earlyUs, u)
+				}
+			}
+			for _, u := range us {
+				h.Tag("shape:" + c19ShapeNames[shape[u]])
+			}
+			type ev struct{ kind, uid int } // kind 0 add, 1 update(old = new), 10 add(unbound), 11 update(unbound -> bound)
+			if len(earlyUs) > 0 {
+				h.Op("numa ftopo 0")
+				for _, i := range r.Perm(len(earlyUs)) {
+					deliver(fh, 1, 0, earlyUs[i]) // dropped by resourceManager.Update: no valid topology yet
+				}
+				h.Op("numa ftopo 1")
+			}
+			setFreshTopo()
 			var evs []ev
 			for _, i := range r.Perm(len(us)) {
-				evs = append(evs, ev{0, us[i]})
+				switch shape[us[i]] {
+				case 1:
+					evs = append(evs, ev{10, us[i]})
+				case 2:
+					evs = append(evs, ev{1, us[i]}) // the resync
+				default:
+					evs = append(evs, ev{0, us[i]})
+				}
 			}
-			extras := 0
 			for _, u := range us {
-				if r.Chance(1, 3) {
-					// insert a duplicate add / same-allocation update somewhere after the first add
+				if shape[u] == 1 { // the bind update arrives somewhere after the unbound add
 					pos := 0
 					for i, e := range evs {
 						if e.uid == u {
 							pos = i
 							break
+						}
+					}
+					at := pos + 1 + r.Intn(len(evs)-pos)
+					evs = append(evs[:at], append([]ev{{11, u}}, evs[at:]...)...)
+				}
+			}
+			extras := 0
+			for _, u := range us {
+				if r.Chance(1, 3) {
+					// insert a duplicate add / same-allocation update somewhere after the object's first effective delivery
+					pos := 0
+					for i, e := range evs {
+						if e.uid == u {
+							pos = i
 						}
 					}
 					at := pos + 1 + r.Intn(len(evs)-pos)
@@ -805,7 +882,11 @@ func TestVerifC19Numa(t *testing.T) {
 				if i == badAt {
 					badDelete(fh)
 				}
-				deliver(fh, 1, e.kind, e.uid)
+				if e.kind >= 10 {
+					deliverX(fh, 1, e.kind-10, e.uid)
+				} else {
+					deliver(fh, 1, e.kind, e.uid)
+				}
 			}
 			if badAt == len(evs) {
 				badDelete(fh)
@@ -886,6 +967,17 @@ func TestVerifC19Numa(t *testing.T) {
 					h.Fail("C19:numa-rebuilt-differs", "live=%v rebuilt=%v", live, got)
 				}
 			}
+			// ---- oracle 2b: per object, whatever the delivery shape: what the rebuilt ledger records for it (CPU set,
+			// per-NUMA amounts) is what the live ledger records
+			for _, u := range us {
+				if shape[u] == 0 {
+					continue // plain adds: covered by oracle 2 under its own fingerprints
+				}
+				if lg, ll := c19PodLine(got, u), c19PodLine(live, u); lg != ll {
+					h.Fail("C19:numa-rebuilt-differs:"+c19ShapeNames[shape[u]], "object %d delivered as %s: live ledger records %q, rebuilt ledger records %q (live=%v rebuilt=%v)",
+						u, c19ShapeNames[shape[u]], ll, lg, live, got)
+				}
+			}
 			// ---- oracle 3: delivery order does not matter
 			if round == 0 {
 				first = got
@@ -913,7 +1005,20 @@ func TestVerifC19Numa(t *testing.T) {
 		}
 		h.End()
 	}
-	h.Close("history of bind (real Reserve+PreBind on a pod, or Reserve(NewReservePod)+PreBindReservation on a Reservation with its resource spec on the template or on itself) / delete / terminate / same-allocation update / duplicate add / hand-made objects on a 1-16 CPU topology (maxRef 1-3, CPU reuse as for reservation owners, NUMA amounts incl. zero and absent keys), cut anywhere, then two shuffled replays with duplicates into fresh caches. Event shapes: every delete goes to the registered OnDelete entry point (pod handler; FilteringResourceEventHandler+ReservationToPodEventHandler for Reservations), 2/5 of the pod deletes as cache.DeletedFinalStateUnknown{Key,Obj} by value (Reservation deletes too when VERIF_C19_TOMB_NUMARESV=1; gated off by default: the IsObjValidActiveReservation filter rejects the tombstone before the adapter's type switch, so the Reservation's CPUs stay taken in the live ledger); 1/12 of the steps and 1/8 of the replays add a degenerate delete (tombstone with a foreign-type / nil / typed-nil Obj, bare foreign object) that must change nothing. Non-trivial = >= 2 surviving allocations")
+	h.Close("history of bind (real Reserve+PreBind on a pod, or Reserve(NewReservePod)+PreBindReservation on a Reservation with its resource spec on the template or on itself) / delete / terminate / same-allocation update / duplicate add / hand-made objects on a 1-16 CPU topology (maxRef 1-3, CPU reuse as for reservation owners, NUMA amounts incl. zero and absent keys), cut anywhere, then two shuffled replays with duplicates into fresh caches. Rebuild shapes per surviving bound object (1/5 each, else plain add): add(unbound,annotated) then update(unbound->bound, same annotations); add before the fresh manager knows the node topology, topology arrives, no-change resync update. Event shapes: every delete goes to the registered OnDelete entry point (pod handler; FilteringResourceEventHandler+ReservationToPodEventHandler for Reservations), 2/5 of the pod deletes as cache.DeletedFinalStateUnknown{Key,Obj} by value (Reservation deletes too when VERIF_C19_TOMB_NUMARESV=1; gated off by default: the IsObjValidActiveReservation filter rejects the tombstone before the adapter's type switch, so the Reservation's CPUs stay taken in the live ledger); 1/12 of the steps and 1/8 of the replays add a degenerate delete (tombstone with a foreign-type / nil / typed-nil Obj, bare foreign object) that must change nothing. Non-trivial = >= 2 surviving allocations")
+}
+
+var c19ShapeNames = []string{"add-bound", "add-unbound-then-update-bound", "add-early-then-object-then-resync"}
+
+// c19PodLine: the "pod <uid> ..." line of a ledger dump ("" = the ledger records nothing for uid).
+func c19PodLine(dump []string, uid int) string {
+	pre := fmt.Sprintf("pod %d ", uid)
+	for _, l := range dump {
+		if strings.HasPrefix(l, pre) {
+			return l
+		}
+	}
+	return ""
 }
 
 func c19Lg(n int) int {
